@@ -651,6 +651,27 @@ fn main() {
     let a = parse_args(&argv[2..]);
     match argv[1].as_str() {
         "emit" => cmd_emit(&a),
+        "formatmany" => {
+            // in-process formatter as an oracle for the binary-level checks: lines "cfg<TAB>hex(utf8 text)"
+            use std::io::BufRead;
+            let stdin = std::io::stdin();
+            for line in stdin.lock().lines() {
+                let line = line.unwrap();
+                let mut it = line.split('\t');
+                let cfg = Cfg::from_proto(it.next().unwrap_or("")).unwrap_or_default();
+                let text = proto::unhex(it.next().unwrap_or("-")).and_then(|b| String::from_utf8(b).ok());
+                match text {
+                    Some(t) => {
+                        let r = std::panic::catch_unwind(|| stages::run_real(&t, &cfg, &[]).0);
+                        match r {
+                            Ok(o) => println!("{}", proto::hex(&o)),
+                            Err(_) => println!("panic"),
+                        }
+                    }
+                    None => println!("bad"),
+                }
+            }
+        }
         "deep" => {
             // known-finding demo (F2): unbounded recursion depth. Runs in this process; a stack overflow aborts it.
             let kind = argv.get(2).map(|s| s.as_str()).unwrap_or("paren");
